@@ -39,11 +39,16 @@ def generate(rng, tier, r):
 
 def execute(program, ctx):
     import numpy as np
+    import jax
+    import jax.numpy as jnp
     from sim import gensim
     from sim.core import Violation
 
     modes = set()
     nontriv = [False]
+
+    def ts_arr(x):
+        return np.asarray(jnp.asarray(x))
 
     def fail(inv, t, what, details, step):
         s = t.spec
@@ -102,6 +107,28 @@ def execute(program, ctx):
                 fail("not-a-product" if (s["cartesian"] or dim == 1) else "not-a-pairing", t, what,
                      {"bt": bt, "first_rows": tdx[:3].tolist(), "expected_first_rows": exp[:3].tolist()}, step)
             ctx.count("probe.border_checked")
+        # the factors are the generator's own sub-batches, in their own row order: when get_batch is the
+        # composition inside_batch -> border_batch -> temporal_batch from the state before the call (decided by
+        # comparing the resulting generator with the one get_batch returned, so a refactoring that advances the
+        # sub-streams in another order switches this check off instead of raising an alarm), T, X and the border
+        # rows must be exactly those sub-batches
+        try:
+            g1, x_ref = t.g.inside_batch()
+            g2, dx_ref = g1.border_batch()
+            g3, t_ref = g2.temporal_batch()
+            same = all(np.array_equal(ts_arr(a), ts_arr(b_)) for a, b_ in zip(jax.tree_util.tree_leaves(g3), jax.tree_util.tree_leaves(g)))
+        except Exception:  # noqa: BLE001
+            same = False
+        if same:
+            ctx.count("probe.sub_batch_oracle")
+            if not np.array_equal(np.asarray(t_ref).reshape(-1), T):
+                fail("factor-is-not-the-temporal-batch", t, "times", {"T": T.tolist(), "temporal_batch": np.asarray(t_ref).reshape(-1).tolist()}, step)
+            if not np.array_equal(np.asarray(x_ref), X):
+                fail("factor-is-not-the-spatial-batch", t, "inside", {"X": X.tolist(), "inside_batch": np.asarray(x_ref).tolist()}, step)
+            if DX is not None and dim == 2 and not np.array_equal(np.asarray(dx_ref), DX):
+                fail("factor-is-not-the-spatial-batch", t, "border", {}, step)
+        else:
+            ctx.count("probe.sub_batch_oracle_off")
         # history part: the factors are what the sub-streams serve
         phases = []
         for v in gensim.substreams(s, g, b):
